@@ -36,6 +36,9 @@ func (fr *Frame) mapHeaps(t types.Type) *mapHeaps {
 	if vs != "" {
 		hs[mh.val] = arrSort("(Array " + ks + " " + vs + ")")
 	}
+	if vs == sInt && s_isRef(mt.Elem()) {
+		fr.vc.heapRef[mh.val] = "map:" + ks
+	}
 	hs[mh.ln] = arrSort(sInt)
 	hs[mh.vis] = arrSort("(Array " + ks + " Bool)")
 	return mh
@@ -55,6 +58,10 @@ func (fr *Frame) mapLen(t types.Type, m *Val) *Val {
 	v := &Val{t: sel(fr.vc.heapGet(fr.st, mh.ln), fr.scalar(m)), sort: sInt, typ: tInt}
 	if !fr.eng.noWF || !hasBoundVar(v.t) {
 		fr.vc.fact(and(app("<=", "0", v.t), implies(eq(fr.scalar(m), "0"), eq(v.t, "0"))))
+		if !hasBoundVar(v.t) {
+			// a map of length 0 has no keys
+			fr.mapWFFacts(mh, fr.scalar(m))
+		}
 	}
 	return v
 }
